@@ -114,7 +114,7 @@ def persist_both(ctx, rule='C10.persist-both'):
             continue
         du = ctx.du(fn)
         _, a0 = du.slice_operand(t['args'][0])
-        if not any(a[0] == 'call' and last_seg(strip_generics(a[2])) == 'freelist_mut' for a in a0):
+        if not any(a[0] == 'call' and ctx.A.get('freelist-view-mut') is not None and a[2] == ctx.A.get('freelist-view-mut').path for a in a0):
             continue
         done = True
         _, a1 = du.slice_operand(t['args'][1])
